@@ -72,8 +72,11 @@ func gen(max int) (toks []hx.JTok, d *spec.Doc, end int) {
 		}
 		if inObjKey {
 			menu = append(menu, cKey)
-		} else {
+		} else if nd.Tier() > 0 {
 			menu = append(menu, cObj, cArr, cStr, cNum, cBool, cNull)
+		} else {
+			// quick tier: two scalar kinds, which leaves room for one more token
+			menu = append(menu, cObj, cArr, cStr, cNum)
 		}
 		c := menu[nd.Choice(len(menu))]
 		if c == cStop {
@@ -115,14 +118,14 @@ func gen(max int) (toks []hx.JTok, d *spec.Doc, end int) {
 			id := d.Add(parent, spec.Node{Kind: spec.Elem, Local: "#arr"})
 			stack = append(stack, frame{node: id, holder: id})
 		case cStr:
-			s := asciiText(nd.Choice(2))
+			s := asciiText(1 - nd.Choice(1+nd.Tier()))
 			toks = append(toks, hx.JTok{Kind: hx.JStr, S: s})
 			d.Add(parent, spec.Node{Kind: spec.Text, Value: s})
 			valueDone()
 		case cNum:
 			// numbers: a menu of concrete doubles (formatting is strconv's, trusted);
 			// includes a value that 'g' renders with an exponent
-			f := []float64{-1, 2.5, 1e6}[nd.Choice(3)]
+			f := []float64{2.5, -1, 1e6}[nd.Choice(1+2*nd.Tier())]
 			toks = append(toks, hx.JTok{Kind: hx.JNum, F: f})
 			d.Add(parent, spec.Node{Kind: spec.Text, Value: strconv.FormatFloat(f, 'g', -1, 64)})
 			valueDone()
@@ -176,10 +179,7 @@ func same(c xsel.Cursor, d *spec.Doc, i int) bool {
 
 // RunJSON: every token stream within the bound.
 func RunJSON() {
-	max := 5
-	if nd.Tier() > 0 {
-		max = 7
-	}
+	max := 7
 	toks, d, end := gen(max)
 	root, err := xsel.ReadJson(&hx.JSONScript{Toks: toks})
 	nd.Reach("json")
